@@ -563,14 +563,15 @@ fn builtin_round(args: Vec<Rc<Object>>) -> Result<Rc<Object>, String> {
                 let multiplier = 10i64.pow(*n as u32);
                 // A float of this magnitude has no fractional digits left (and
                 // scaling it could overflow): it is its own rounding
-                // (the same holds once the scaled value has no fractional digits left)
-                let rounded = if f.abs() >= 4503599627370496.0
-                    || !(f * multiplier as f64).is_finite()
-                    || (f * multiplier as f64).abs() >= 4503599627370496.0
-                {
+                let scaled = f * multiplier as f64;
+                let rounded = if f.abs() >= 4503599627370496.0 || !scaled.is_finite() {
                     *f
+                } else if scaled.abs() >= 4503599627370496.0 {
+                    // the scaled value has no fractional digits left to round on:
+                    // round the exact decimal expansion instead
+                    format!("{:.*}", *n as usize, f).parse().unwrap_or(*f)
                 } else {
-                    (f * multiplier as f64).round() / multiplier as f64
+                    scaled.round() / multiplier as f64
                 };
                 Ok(Rc::new(Object::Float(rounded)))
             } else {
